@@ -7,6 +7,8 @@ from fractions import Fraction
 
 import numpy as np
 
+from .. import shapes as S
+
 from .. import weaver_common as W
 from ..core import floats
 
@@ -51,6 +53,8 @@ def cases(rng, tier):
             c["ops"] += pipeline(rng)
             if rng.random() < 0.3:
                 c["ops"].append(W.gen_reshape_op(rng, ["trend", "interp", "smooth", "noise"]))
+        if rng.random() < 0.3:
+            c["ops"] = W.sprinkle(rng, c["ops"], 0.2, 0.0)      # refused requests in between leave nothing behind
         yield c
     if tier == "thorough":
         for L in range(0, 4):
@@ -78,14 +82,17 @@ def expected_domain(c, io):
     """apply the plain process / helper functions to the original, step by step"""
     from traffic_weaver import sorted_array_utils as sau
     from traffic_weaver import process
-    x = np.array(floats([Fraction(v) for v in c["x"]]))
-    y = np.array(floats([Fraction(v) for v in c["y"]]))
+    x = S.arr(floats([Fraction(v) for v in c["x"]]))
+    y = S.arr(floats([Fraction(v) for v in c["y"]]))
     if c.get("x_none"):
         x = np.arange(len(y)).astype(float)
     ox, oy = x.copy(), y.copy()
     out = [(x, y, ox, oy)]
     for op, st in zip(c["ops"], io["steps"][1:]):
         k = op["op"]
+        if k == "fail" and "err" not in st:
+            out.append((x, y, ox, oy))      # a refused request changes nothing
+            continue
         if k not in W.DOMAIN or "err" in st:
             break
         if k == "append":
@@ -130,6 +137,9 @@ def oracle(c, io):
     steps = io["steps"]
     if "err" in steps[0]:
         return None
+    bad = W.accepted_invalid(io)
+    if bad:
+        return bad
     exp = expected_domain(c, io)
     reshaped = False
     prev = None
